@@ -44,8 +44,33 @@ def output_edges(ck):
     return found
 
 
+SERVICE_BEHIND_REBUILD = (
+    # watch mode: app (build) depends on the service svc, which depends on the build w0; w0 is being rebuilt (held at its gate
+    # for more than a second) when app's own input changes: app must wait for w0 and for the restart of svc
+    {'w0': {'kind': 'build', 'own_input': True, 'producers': [], 'deps': []},
+     'svc': {'kind': 'service', 'own_input': False, 'producers': [], 'deps': ['w0']},
+     'w1': {'kind': 'build', 'own_input': True, 'producers': [], 'deps': ['svc']}}, ['w1'], True,
+    [('during', 'w1', 'w0', 1.3, 0.6), ('idle',)])
+THROUGH_AGGREGATE_BEHIND_REBUILD = (
+    {'w0': {'kind': 'build', 'own_input': True, 'producers': [], 'deps': []},
+     'agg': {'kind': 'aggregate', 'own_input': False, 'producers': [], 'deps': ['w0']},
+     'w1': {'kind': 'build', 'own_input': True, 'producers': [], 'deps': ['agg']}}, ['w1'], True,
+    [('during', 'w1', 'w0', 1.3, 0.6), ('idle',)])
+
+
+def watch_starts(ck):
+    from slices import watchrun
+    ck.rule('watch scenarios (real binary, real inotify): generated graphs x change plans, plus two fixed ones — a build behind a '
+            'service (resp. an aggregate) whose own build dependency is held in its rebuild for more than a second when the build\'s '
+            'own input changes; oracle: no script starts while a build it depends on, at any depth, has been re-running for more '
+            'than 1 s (the scripts\' own timestamps)')
+    found, _known = watchrun.campaign(ck, 'C01', 6 if ck.tier == 'quick' else 60,
+                                      fixed=[SERVICE_BEHIND_REBUILD, THROUGH_AGGREGATE_BEHIND_REBUILD])
+    return found
+
+
 def extras(ck):
-    return output_edges(ck) + engine.fixed_runs(ck, 'C01', engine.KILLED_DEPENDENCY,
+    return watch_starts(ck) + output_edges(ck) + engine.fixed_runs(ck, 'C01', engine.KILLED_DEPENDENCY,
                                                 'a dependency whose script dies from SIGKILL / SIGTERM / SIGSEGV, reached directly '
                                                 'and through an aggregate: no dependent may start')
 
